@@ -79,6 +79,10 @@ CLAIMS["C13"]["text"] += (" Exit paths: spec/WalClose.tla adds a Close that fail
                           "on the real code Close is made to fail at each of its file-system calls and Open at seeded calls, the process exits, and Layer A judges the next Open (recovery iff the lock file is there, contents exactly the acknowledged ones).")
 CLAIMS["C07"]["text"] += " A further family runs on a file system whose reads of segment and index files pause before touching the file, which widens any window in which a reader is not protected by the lock."
 CLAIMS["C04"]["text"] += STRICT.replace("Strict-mode recordings", "Strict-mode recordings with simulated unclean shutdowns (garbage appended to, bytes cut off the newest segment)")
+CLAIMS["C10"]["text"] += (" Deterministic additions: close-race histories (a Close or a compaction started from inside the reader's critical section, on a file system whose windows become inaccessible when the file is closed, as fs.OSMMap's do) "
+                          "and Compact/Sync made to fail at seeded file-system calls, after which the next call runs under a watchdog (a lock left behind on an error path is a stuck event). spec/Locks.tla checks the lock discipline at the design level (no deadlock, termination, Close waits for the worker).")
+CLAIMS["C14"]["text"] += " Close-race histories (see C10) show that what Get, GetAppend and Next hand out was copied before the lock was released: a late copy takes a memory fault."
+CLAIMS["C15"]["text"] += " After every successful Close on fs.OS/fs.OSMMap the process must hold no descriptor and no mapping of the database directory (closed_res); Compact/Sync failing at seeded file-system calls must leave the database usable."
 CLAIMS["C17"]["text"] += (" Simulated unclean shutdowns append garbage to, or cut bytes off, the newest segment (then TLC requires the contents replayed by the independent decoder: Layer A's DamagedOpened), "
                           "or truncate it inside its header (outcome compared across file systems only).")
 NA_REASON = "not claimed"
